@@ -36,6 +36,12 @@ def line_body(x):
     return x[:len(x) - 1] if x.endswith(NL) else x
 
 
+def line_body_over_concat():
+    """proof hint (True): instantiate `line_body(a + b) == a + line_body(b)` (b ending in new-line) at the
+    concatenations the code makes -- a consequence of the definition of line_body"""
+    return True
+
+
 def is_split_nl(xs, t):
     n = len(xs)
     return forall_range(0, n, lambda j: is_line(xs[j])) \
@@ -80,6 +86,7 @@ def register_models(M):
     from pyvc import texts
     M.model(is_line, texts.m_is_line)
     M.model(line_body, texts.m_line_body)
+    M.model(line_body_over_concat, texts.m_line_body_over_concat)
     M.model(nlines, texts.m_nlines)
     M.model(line_at, texts.m_line_at)
     M.model(lines_of, texts.m_lines_of)
